@@ -634,12 +634,11 @@ def rule_M(ctx):
     def py(p):
         return p.fields['N']
 
-    class O(orders.PyStub):
-        isa = ('Obs',)
+    class _LazyO:
+        make = None
 
-        def __init__(self, position, timestamp=None):
-            self.position = position
-            self.timestamp = timestamp
+    def O(position, timestamp=None):
+        return _LazyO.make(position, timestamp)       # the repository's own Obs
 
     class Track(orders.PyStub):
         __module__ = 'tracklib.core.track'
@@ -666,10 +665,10 @@ def rule_M(ctx):
             return self[i]
 
         def getX(self):
-            return [px(o.position) for o in self.obs]
+            return [px(o.fields['position']) for o in self.obs]
 
         def getY(self):
-            return [py(o.position) for o in self.obs]
+            return [py(o.fields['position']) for o in self.obs]
 
         def addObs(self, o):
             self.obs.append(o)
@@ -684,8 +683,9 @@ def rule_M(ctx):
         def getObsAnalyticalFeature(self, name, i):
             return self.af[name][i]
     Track.__qualname__ = Track.__name__ = 'Track'
-    fn = absint.funcs(ctx, MAP, {'Track': Track, 'Obs': O})
+    fn = absint.funcs(ctx, MAP, {'Track': Track})
     fn['__globals__'].update({'Track': Track})
+    _LazyO.make = lambda position, timestamp=None: absint.real_obs(ctx, fn, position, timestamp)
     _Lazy.cls = absint.classref(ctx, 'tracklib.core.obs_coords.ENUCoords', fn)
     fn['sqrt'], fn['hypot'] = math.sqrt, math.hypot
     is_pos = lambda v: isinstance(v, orders.Obj) and 'E' in v.fields and 'N' in v.fields
@@ -727,7 +727,7 @@ def rule_M(ctx):
         if moved:
             ref = refs[lname]
             for o_, p_ in zip(ref.obs, pts):
-                o_.position.fields['E'], o_.position.fields['N'] = float(p_[0]), float(p_[1])
+                o_.fields['position'].fields['E'], o_.fields['position'].fields['N'] = float(p_[0]), float(p_[1])
             lname = lname + ' (the same track object after being rotated and translated in place)'
             qs = [(7.0 - 0.6 * y_ + 0.8 * x_, -3.0 + 0.8 * y_ + 0.6 * x_) for x_, y_ in queries[lname.split(' (the same')[0]]]
         else:
@@ -748,7 +748,7 @@ def rule_M(ctx):
         for k, q_ in enumerate(qs):
             n_cases += 1
             want = min(seg_dist(q_, pts[j], pts[j + 1]) for j in range(len(pts) - 1))
-            for form, (pp, dd, ee) in (('track form', (out.obs[k].position, out.af['dist'][k], out.af['edge'][k])), ('single-coordinate form', singles[k] if isinstance(singles[k], tuple) and len(singles[k]) == 3 else (None, None, None))):
+            for form, (pp, dd, ee) in (('track form', (out.obs[k].fields['position'] if isinstance(out.obs[k], orders.Obj) else None, out.af['dist'][k], out.af['edge'][k])), ('single-coordinate form', singles[k] if isinstance(singles[k], tuple) and len(singles[k]) == 3 else (None, None, None))):
                 ok = is_pos(pp) and isinstance(dd, (int, float)) and isinstance(ee, int) and not isinstance(ee, bool) and 0 <= ee < len(pts) - 1
                 why = 'the segment index designates a segment of the reference polyline (0 .. %d)' % (len(pts) - 2)
                 if ok:
